@@ -380,7 +380,7 @@ def _sig(v):
 
 HARNESSES = [
     HarnessSpec('construct', h_construct, [{'op': o, 'pre': p} for o in CONSTRUCTS for p in (None, 'OP_UNSET_FLAG', 'OP_SET_FLAG')],
-                replay=auto_replay(h_construct), signature=_sig),
+                replay=auto_replay(h_construct), signature=_sig, witness_replay=True, witness_every=5),
     HarnessSpec('plugin_once', h_plugin_once, [{'op': o} for o in SIG_OPS], replay=r_plugin_once, signature=_sig),
     HarnessSpec('flag_op', h_flag_op, lambda t: [{'op': o, 'k': k} for o in ('OP_SET_FLAG', 'OP_UNSET_FLAG')
                                                 for k in (range(0, 4) if t == 'quick' else range(0, 5))],
